@@ -19,6 +19,18 @@ Specification: spec/SourceLine.tla
     source is rewritten (each physical line with a seed-chosen vector, each file with a file vector) and assembled
     like the test driver does; the p2bin image must equal the recorded tests/<t>/<t>.ori.   quick: 2 rewritten
     variants per test (402 programs), thorough: 10.
+(B) BodyCollect: the body collector of as.c (MacroStart: MACRO IRP IRPN IRPC REPT WHILE open, MacroEnd: ENDM ENDR
+    close; the body ends at nesting -1), the precondition of the macro wrap (Wrappable: balanced for the collector
+    and for IF/SWITCH, STRUCT/UNION, SECTION pairs) and the meaning of the constructs (Expand).  BodyCollect_MC:
+    every statement sequence up to 4 (thorough 5) over the collector alphabet: CollectorBalanced(ops) <=> the
+    collector ends the wrapper's body at the wrapper's ENDM; 118 construct trees (every kind, one and two levels
+    deep, IRPN with 1..3 parameters, IF 0/1, SECTION) are rendered and assembled plain / macro-wrapped /
+    include-wrapped: each must yield the byte sequence TLC computed (Expand).  Corpus: every golden source that
+    contains a body-collecting or paired construct (65) gets, in the quick tier too, a macro-wrap variant whose
+    regions are the maximal wrappable runs containing the constructs (t_irpn: the whole file) and an
+    include-wrap variant; the wrapped runs (mnemonics as logged by the assembler) are validated by TLC
+    (BodyCollect_Trace).  Not wrapped: lines with {SYM} in the mnemonic (expanded while a body is collected,
+    documented in t_expandop), END / INCLUDE / EXITM / SHIFT, text using ALLARGS / ARGCOUNT / ATTRIBUTE.
 (R) SourceLine_RL: the reader (ReadLnCont: physical lines, chunked fgets, CR/LF/^Z stripping, backslash
     continuation).  TLC checks for every chain of 1..4 physical lines x {LF, CR-LF per line, none at the end} x
     {nothing, blank, tab before the backslash} x comment behind the chain x buffer states (real 1024/128/128 and
@@ -60,6 +72,8 @@ Mutations of the real code tried on a scratch copy (selftest/C16-m*.py, selftest
   -- as.c: no KillPostBlanks on arguments ("a ,b")                 7 ctest failures   caught
   m5 strutil.c: CR test indexes p_line->p_str instead of pDest     ctest passes       caught (t_longline with
      (CR kept on continuation lines / later chunks)                                   CR-LF/mixed ends + 20 chain sources)
+  m6 as.c MacroStart(): IRPN no longer opens a collected block    ctest passes       caught (t_irpn macro-wrapped,
+     (nested IRPN's ENDM ends the enclosing body)                                     construct trees with IRPN inside)
   -- strutil.c: CR in front of LF never stripped                   ctest passes       same class as m5 (CR hides the
      backslash of a continuation); caught since continuation lines take part in the CR-LF rewrite.
 ./check C16 --selftest shows the trace binding (a changed field of a recorded split event is rejected).
@@ -140,10 +154,10 @@ def _work(args):
     recs = {}
     allrecs = srcline.split_records(res.trace or [], 1)
     symset = srcline.defined_symbols(res.trace or [])
-    for rc_ in allrecs:
-        if rc_.get("depth") == 1 and rc_["line"] not in recs:
-            rc_["symset"] = symset
-            recs[rc_["line"]] = rc_
+    texts = [ln for (ln, eol) in srcline.physical_lines(data)]
+    recs = srcline.records_by_line(allrecs, texts)
+    for rc_ in recs.values():
+        rc_["symset"] = symset
     r = random.Random("%d/c16/%s" % (sd, name))
     # sample of SPLIT events (distinct raw text + parameters), all depths (macro expansions, includes)
     seen = set()
@@ -173,11 +187,7 @@ def _work(args):
                "msg": v["msg"], "nontrivial": stats["rewritten"] > 0 or stats["regions"] > 0 or
                fvec["wrap"] != "none" or fvec["crlf"] != "lf" or stats["blank_added"] > 0}
         if want_tr and v["trace"]:
-            base = 2 if fvec["wrap"] == "include" else 1
-            recs2 = {}
-            for x in srcline.split_records(v["trace"], 1):
-                if x.get("depth") == base:
-                    recs2.setdefault(x["line"], x)
+            recs2 = srcline.records_by_line(srcline.split_records(v["trace"], 1), [it["new"] for it in items])
             ch = srcline.changed_indices(items)
             r.shuffle(ch)
             for k in ch:
